@@ -8,14 +8,13 @@ import (
 	"os"
 	"sort"
 
-	"kapverif/drivers"
 	"kapverif/rt"
 )
 
 func main() {
 	if len(os.Args) < 2 {
 		names := make([]string, 0)
-		for n := range drivers.Registry {
+		for n := range rt.Registry {
 			names = append(names, n)
 		}
 		sort.Strings(names)
@@ -28,7 +27,7 @@ func main() {
 	seed := fs.Int64("seed", 1, "seed for every random choice")
 	out := fs.String("out", "", "output directory")
 	fs.Parse(os.Args[2:])
-	fn, ok := drivers.Registry[name]
+	fn, ok := rt.Registry[name]
 	if !ok {
 		rt.Fatalf("unknown driver %q", name)
 	}
